@@ -162,10 +162,34 @@ func (c *shimBConn) send(m shimMsg) error {
 	return c.ws.WriteMessage(m.T, m.D)
 }
 
-// closeNow is a backend-initiated close: close frame, then the socket.
+// closeNow is a backend-initiated close the way a well-behaved server does
+// it: close frame, then FIN (write side only). The socket keeps reading until
+// the peer closes, so a client message still in flight is consumed instead of
+// being answered with a TCP reset - a reset makes the kernel discard data the
+// agent has not read yet, which would be the harness losing messages, not the
+// code under test.
 func (c *shimBConn) closeNow() {
 	c.wmu.Lock()
 	c.ws.WriteControl(websocket.CloseMessage, websocket.FormatCloseMessage(websocket.CloseNormalClosure, "backend done"), time.Now().Add(time.Second))
+	c.wmu.Unlock()
+	if tc, ok := c.ws.UnderlyingConn().(*net.TCPConn); ok {
+		tc.CloseWrite()
+		go func() { // never linger forever
+			select {
+			case <-c.closed:
+			case <-time.After(15 * time.Second):
+				c.ws.Close()
+			}
+		}()
+		return
+	}
+	c.ws.Close()
+}
+
+// closeAbruptly closes the socket at once (possibly with a TCP reset).
+func (c *shimBConn) closeAbruptly() {
+	c.wmu.Lock()
+	c.ws.WriteControl(websocket.CloseMessage, websocket.FormatCloseMessage(websocket.CloseNormalClosure, "backend gone"), time.Now().Add(time.Second))
 	c.wmu.Unlock()
 	c.ws.Close()
 }
